@@ -41,11 +41,23 @@ def check_valid(pc, goal, timeout_s=20.0, want_model=True, second_opinion=True):
     if r == z3.unsat:
         return "valid", None, "z3"
     if r == z3.sat and not quant:
-        return "invalid", s.model(), ""
-    ru = s.reason_unknown() if r == z3.unknown else "sat under e-matching only (no model)"
+        m = s.model()
+        # z3's sequence solver occasionally answers sat with a model that does not satisfy the query
+        # (strings under uninterpreted functions): only a validated model counts as a refutation
+        try:
+            ok = all(z3.is_true(m.eval(f, model_completion=True)) for f in fs)
+        except z3.Z3Exception:
+            ok = False
+        if ok:
+            return "invalid", m, ""
+        r = z3.unknown
+        bogus = True
+    else:
+        bogus = False
+    ru = ("sat, but the model does not validate" if bogus else s.reason_unknown()) if r == z3.unknown else "sat under e-matching only (no model)"
     # NOPROOF = the instantiation procedure terminated without a refutation (a definite "not proved");
     # anything else (timeout, cancel, memory) is a resource limit and never counts against the code
-    definite = r == z3.sat or ("incomplete" in ru and "timeout" not in ru and "cancel" not in ru)
+    definite = (r == z3.sat or ("incomplete" in ru and "timeout" not in ru and "cancel" not in ru)) and not bogus
     reason = ("NOPROOF " if definite else "RESOURCE ") + "z3: " + ru
     if not second_opinion:
         return "unknown", None, reason
